@@ -242,3 +242,70 @@ def default_coordinates(case, ctx):
                                                    f"{case['scale']}")
     if not np.allclose(z, zc, rtol=0, atol=1e-12 * (1 + np.max(np.abs(z)))):
         raise Violation("C11.coords.consistent", "default coordinates differ from zernike_coordinates(mask)")
+
+
+# --- history: masks that share array shape and centroid but differ in extent ------------------------
+
+@st.composite
+def concentric_case(draw, tier):
+    hi = 24 if tier == "quick" else 40
+    shape = draw(gen.shape2(9, hi))
+    m, n = shape
+    r0 = draw(st.integers(3, m - 4))
+    c0 = draw(st.integers(3, n - 4))
+    room = min(r0, m - 1 - r0, c0, n - 1 - c0)
+    masks = []
+    for _ in range(draw(st.integers(2, 4))):
+        kind = draw(st.sampled_from(["disc", "box", "ring", "cross"]))
+        masks.append({"kind": kind, "a": draw(st.integers(1, room)), "b": draw(st.integers(1, room))})
+    return {"shape": list(shape), "centre": [r0, c0], "masks": masks, "j": draw(st.integers(1, 22)),
+            "normalize": draw(st.booleans())}
+
+
+def _concentric_mask(shape, centre, d):
+    yy, xx = np.mgrid[0:shape[0], 0:shape[1]]
+    dy, dx = yy - centre[0], xx - centre[1]
+    a, b = d["a"], d["b"]
+    if d["kind"] == "disc":
+        return (dy ** 2 + dx ** 2 <= a ** 2).astype(int)
+    if d["kind"] == "box":
+        return ((np.abs(dy) <= a) & (np.abs(dx) <= b)).astype(int)
+    if d["kind"] == "ring":
+        return ((dy ** 2 + dx ** 2 <= a ** 2) & (dy ** 2 + dx ** 2 >= (a // 2) ** 2)).astype(int)
+    return (((np.abs(dy) <= a) & (dx == 0)) | ((np.abs(dx) <= b) & (dy == 0))).astype(int)
+
+
+@hyp("C11", "coordinates_history", lambda tier: concentric_case(tier),
+     "2-4 point-symmetric masks that share array shape and centroid but differ in extent, evaluated one after the "
+     "other: each must get rho = 1 at ITS farthest sample and the textbook value there", examples=(300, 1200))
+def coordinates_history(case, ctx):
+    shape, centre = tuple(case["shape"]), case["centre"]
+    j = case["j"]
+    _, nn, am, kind = _seq(20000)[j - 1]
+    extents = []
+    ctx.tag(f"masks:{len(case['masks'])}", gen.parity_tags("m", shape))
+    for i, d in enumerate(case["masks"]):
+        mask = _concentric_mask(shape, centre, d)
+        idx = np.argwhere(mask != 0)
+        if len(idx) < 2:
+            continue
+        dist = np.hypot(idx[:, 0] - centre[0], idx[:, 1] - centre[1])
+        dmax = dist.max()
+        extents.append(round(float(dmax), 6))
+        with lentil_call("C11.history", f"zernike_coordinates / zernike (mask {i}: {d['kind']})"):
+            rho, theta = lentil.zernike_coordinates(mask)
+            z = np.asarray(lentil.zernike(mask, j, normalize=case["normalize"]), dtype=float)
+        rm = rho[mask != 0]
+        if abs(rm.max() - 1) > 1e-12 or np.max(np.abs(rm * dmax - dist)) > 1e-9 * (1 + dmax):
+            raise Violation("C11.history.rho", f"mask {i} ({d['kind']}, extent {dmax:.3f}) evaluated after masks with "
+                                               f"extents {extents[:-1]}: max rho = {rm.max():.6f}, rho*extent differs from "
+                                               f"the distance to the centroid by {np.max(np.abs(rm * dmax - dist)):.3f}")
+        # (rho was just checked against distance/extent at 1e-9; the textbook value is taken at lentil's own rho so
+        # that the last-bit error of the floating-point centroid does not enter the comparison)
+        ref, mag = zern.mode(nn, am, kind, rm, theta[mask != 0], normalize=case["normalize"])
+        sign = _sine_sign() if kind == "sin" else 1.0
+        tol = 64 * np.finfo(float).eps * (np.asarray(mag, dtype=float) * (1 + am * 4) + 1.0)
+        if np.any(np.abs(z[mask != 0] - sign * np.asarray(ref, dtype=float)) > tol):
+            raise Violation("C11.history.value", f"mode {j} over mask {i} ({d['kind']}) differs from the textbook value at "
+                                                 f"rho = distance/extent after evaluating masks with extents {extents[:-1]}")
+    ctx.nontrivial_if(len(set(extents)) >= 2)
